@@ -20,6 +20,11 @@ CONC = drv("conc", ["props/conc.cpp"], ldflags="-lrapidcheck" + LOCKWRAPS)
 CONC_TSAN = drv("conc_tsan", ["props/conc.cpp"], flavour="tsan", ldflags="-lrapidcheck" + LOCKWRAPS)
 ALLOCFAIL = drv("allocfail", ["props/allocfail.cpp"])
 WRAPS = " -Wl,--wrap=lrtr_get_monotonic_time,--wrap=sleep,--wrap=lrtr_dbg"
+INTERVALS = drv("intervals", ["props/intervals.cpp"])
+CONV_FUZZ = {"name": "conv_fuzz", "sources": ["props/conv_fuzz.cpp", "engine/convsim.cpp", "shim/shim.c"], "flavour": "fuzz", "libfuzzer": True,
+             "ldflags": " -Wl,--wrap=lrtr_get_monotonic_time,--wrap=sleep,--wrap=lrtr_dbg" + LOCKWRAPS,
+             "deps": ["engine/convsim.hpp", "engine/convsim_model.inc", "engine/convsim_mock.inc", "engine/convsim_run.inc", "engine/judge.hpp",
+                      "engine/cache.hpp", "engine/script.hpp", "engine/wire.hpp", "engine/convsim_battery.inc"]}
 CONV = drv("conv", ["props/conv.cpp", "engine/convsim.cpp"], ldflags="-lrapidcheck" + WRAPS + LOCKWRAPS,
            deps=["engine/convsim.hpp", "engine/convsim_model.inc", "engine/convsim_mock.inc", "engine/convsim_run.inc", "engine/judge.hpp",
                  "engine/cache.hpp", "engine/script.hpp", "engine/wire.hpp", "engine/convsim_battery.inc"])
@@ -323,7 +328,7 @@ CHECKS = {
         "level_text": "Exhaustive single-fault enumeration per history (every allocation site reached, failed one at a time), histories sampled; allocator pairing checked with a ledger.",
         "level_note": "Only single failures (one NULL per run). The synchronisation part (temporary PDU stores, shadow tables inside rtr_sync) is covered by the conversation stage.",
         "stages": [{"driver": ALLOCFAIL,
-                    "quick": {"procs": 8, "rc": (60, 60)},
+                    "quick": {"procs": 8, "rc": (40, 60)},
                     "thorough": {"procs": 16, "rc": (4000, 100), "timeout": 7200}}],
     },
     "C06": {
@@ -343,4 +348,58 @@ CHECKS = {
                     "quick": {"procs": 8, "rc": (300, 100)},
                     "thorough": {"procs": 16, "rc": (10000, 100), "timeout": 7200}}],
     },
+    "C04": {
+        "level": "exploration",
+        "engine": "convsim + libFuzzer + rapidcheck",
+        "rule": CONV_GEN + "C04 uses three stages. (1) rapidcheck conversations with emphasis on raw byte responses, hostile-but-well-formed fields and framing mutations, reader battery on (validations and key lookups on the tables after hostile payload was applied, so assertions downstream of a decoded PDU are reached). "
+                "(2) chunking metamorphosis: every conversation is run twice — scripted read/write chunking (1-byte, irregular, 7-byte reads; 1-3 byte writes) vs largest chunks — and table contents, state sequence, socket fields and sent bytes must be identical. "
+                "(3) libFuzzer (ASan+UBSan, -fsanitize=fuzzer) over the byte encoding of scripts (every byte string decodes to a script; half of the workers start from an empty corpus). Oracles in all stages: no sanitizer report, no assertion (asserts are on), the state machine always comes back to the transport "
+                "(20000-calls-without-progress guard, 120 s wall-clock hang guard), and a response in which the judge finds a PDU that is too short, too long, size-inconsistent with its type or of unknown type before a valid End of Data must not end in success (nothing of it in the tables is checked by the either-or of C03 at the next observation point). "
+                "non-trivial = a conversation with a framing fault, hostile/raw payload or short reads; distinct by hash of the script (rapidcheck stages) / of the input (libFuzzer stage).",
+        "assumptions": CONV_A + ["UBSan is restricted to bounds/null/object-size/return/unreachable: misaligned access and shifts are not 'invalid memory accesses' in the sense of the property (DESIGN.md §4)",
+                                 "libFuzzer runs are pinned by -seed and -runs but remain only approximately reproducible; the saved input is the reproducible unit"],
+        "floor": {"quick": 40, "thorough": 400},
+        "technique": "coverage-guided fuzzing (libFuzzer) with semantic oracles in the target + property-based conversation testing + chunking metamorphic relation",
+        "level_text": "Sampled exploration by three complementary searches over byte streams, chunkings and fault placements; memory safety by ASan/UBSan with assertions enabled.",
+        "level_note": "A wall-clock limit or a libFuzzer timeout/oom artifact is counted as inconclusive, never as a violation.",
+        "stages": [{"driver": CONV,
+                    "quick": {"procs": 6, "rc": (250, 100)},
+                    "thorough": {"procs": 16, "rc": (12000, 100), "timeout": 7200}},
+                   {"driver": CONV, "args": ["--mode", "chunk"],
+                    "quick": {"procs": 4, "rc": (200, 100)},
+                    "thorough": {"procs": 16, "rc": (8000, 100), "timeout": 7200}},
+                   {"type": "libfuzzer", "driver": CONV_FUZZ, "replay_driver": CONV,
+                    "quick": {"procs": 4, "runs": 6000, "max_len": 600},
+                    "thorough": {"procs": 16, "runs": 400000, "max_len": 2048, "timeout": 7200}}],
+    },
 }
+
+
+def _conv_stage(quick, thorough, args=None, procs_q=6):
+    st = {"driver": CONV, "quick": {"procs": procs_q, "rc": quick}, "thorough": {"procs": 16, "rc": thorough, "timeout": 7200}}
+    if args:
+        st["args"] = args
+    return st
+
+
+# conversation parts of the table-callback properties: rollback, reload diff, expiry purge, stop
+CHECKS["C09"]["stages"].append(_conv_stage((300, 100), (10000, 100)))
+CHECKS["C09"]["engine"] = "rapidcheck + convsim"
+CHECKS["C10"]["stages"].append(_conv_stage((300, 100), (10000, 100)))
+CHECKS["C10"]["engine"] = "rapidcheck + convsim"
+CHECKS["C10"]["rule"] += (" Stage conv: in generated conversations (see C03) the router-key callback log must equal the router-key table at every observation point "
+                          "(after rollbacks, reload diffs, expiry purges, stops).")
+# C14: no byte sent stems from uninitialised memory — determinism under two dirtying patterns
+CHECKS["C14"]["stages"].append(_conv_stage((200, 100), (8000, 100), ["--mode", "dirty"], procs_q=4))
+CHECKS["C14"]["rule"] += (" Stage dirty: every conversation is run twice, with the stack below every transport call and every heap block of the library pre-filled with 0x00 resp. 0xFF; "
+                          "the complete outbound byte log must be identical.")
+# C17 (a): range check at initialisation
+CHECKS["C17"]["stages"].insert(0, {"driver": INTERVALS, "quick": {"procs": 1, "rc": (3000, 100)}, "thorough": {"procs": 4, "rc": (200000, 100), "timeout": 3600}})
+CHECKS["C17"]["exhaustive_note"] = "stage intervals: the 9x9x9 grid of boundary values (0, min-1, min, min+1, mid, max-1, max, max+1, 2^32-1) for refresh x expire x retry is enumerated completely for rtr_init and rtr_mgr_init"
+CHECKS["C17"]["rule"] = ("Stage intervals: rtr_init and rtr_mgr_init are called with every triple of the 9-value boundary grid per interval (exhaustive, 729 triples) and with random triples: error iff some value is outside its RFC 8210 range, values stored unchanged otherwise. Stage conv: "
+                         + CHECKS["C17"]["rule"])
+# C18 (b): allocation failures during synchronisations
+CHECKS["C18"]["stages"].append(_conv_stage((5, 50), (600, 100), ["--mode", "alloc"], procs_q=8))
+CHECKS["C18"]["engine"] = "rapidcheck + per-fault re-execution + convsim"
+CHECKS["C18"]["rule"] += (" Stage conv: for generated conversations (see C03) run 0 counts the allocations the library makes while synchronising (temporary PDU stores incl. >100 PDU payloads, shadow tables, hash-table growth, undo paths); "
+                          "a conversation that ends converged must leave the ledger empty; then every allocation index (every k for N <= 400, else 400 evenly spaced) is failed once: no crash, and all conversation oracles (either-or of C03, callbacks, convergence) must still hold.")
